@@ -324,7 +324,7 @@ def check_passthrough(ctx, rule: str, caller_fq: str, callee_fq: str, expected: 
                 good = arg_res is not None and bool(exp(caller, arg_res))
                 exp_txt = getattr(exp, "__doc__", None) or "predicate"
             else:
-                good = arg_res is not None and (unparse(arg) == exp or unparse(arg_res) == exp)
+                good = arg_res is not None and ((arg is not None and unparse(arg) == exp) or unparse(arg_res) == exp)
                 exp_txt = exp
             ctx.check(rule, good,
                       f"{what_prefix}{caller_fq} L{call.lineno}: {callee.qualname}({p}=...) receives `{exp_txt}`",
